@@ -268,6 +268,17 @@ def blue_actions(v) -> List[Dict]:
         target_port=[5432, 80], show=False)
     add("node-network-service-recon", source_node="client_1", target_ip_address="192.168.1.12/30", target_protocol="tcp",
         target_port=80, show=False)
+    # (appended: indices of the entries above never change)
+    # a file-system level restore sent through the terminal: restores a deleted file without going through the folder's route
+    add("node-send-local-command", node_name="backup_server", username="admin", password="admin",
+        command=["file_system", "restore", "file", "docs", "a.txt"])
+    add("node-send-local-command", node_name="backup_server", username="admin", password="admin",
+        command=["file_system", "delete", "file", "docs", "b.txt"])
+    # sessions on the gateway device itself (router / firewall): remote from a client, local through its terminal
+    add("node-session-remote-login", node_name="client_1", remote_ip="192.168.10.1", username="admin", password="admin")
+    add("node-session-remote-login", node_name="client_2", remote_ip="192.168.10.1", username="admin", password="admin")
+    add("node-send-local-command", node_name=gw, username="admin", password="admin", command=["file_system", "create", "folder", "gwdir"])
+    add("node-session-remote-logoff", node_name="client_1", remote_ip="192.168.10.1")
     return A
 
 
@@ -295,10 +306,18 @@ def _blue(v):
         "num_ports": 3, "ip_list": [IPS[h] for h in HOSTS], "wildcard_list": list(v.get("wildcards", ["0.0.0.1", "0.0.0.255"])),
         "port_list": ["HTTP", "POSTGRES_SERVER"], "protocol_list": ["ICMP", "TCP", "UDP"], "num_rules": 5,
     }
+    for h in hosts_cfg:  # per-host options that differ from the nodes-level ones
+        h.update(copy.deepcopy(v.get("host_overrides", {}).get(h["hostname"], {})))
+    if v.get("dup_lists"):  # legal: an entry listed twice
+        nodes_opts["ip_list"] = nodes_opts["ip_list"] + [IPS["client_1"]]
+        nodes_opts["wildcard_list"] = nodes_opts["wildcard_list"] + [nodes_opts["wildcard_list"][0]]
+        nodes_opts["port_list"] = nodes_opts["port_list"] + ["HTTP"]
     if v.get("traffic", False):
         nodes_opts["monitored_traffic"] = {"icmp": ["NONE"], "tcp": ["HTTP", "POSTGRES_SERVER"], "udp": ["DNS"]}
     if v.get("topo", "routed") == "routed":
         nodes_opts["routers"] = [{"hostname": "router_1"}]
+        if v.get("router_ports"):  # an explicit port list shorter / longer than num_ports (padded / truncated)
+            nodes_opts["routers"][0]["ports"] = [{"port_id": i} for i in v["router_ports"]]
     else:
         nodes_opts["firewalls"] = [{"hostname": "firewall_1"}]
     amap = {i: a for i, a in enumerate(blue_actions(v))}
@@ -365,13 +384,18 @@ def gen_scenario(v: Dict) -> Dict:
 def _variants():
     out = []
     base = dict(topo="routed", flatten=False, masking=False, scan=True, nmne=True, traffic=False, access=False, dur=1, ep_len=6)
-    out.append(dict(base))
-    out.append(dict(base, flatten=True, masking=True, scan=False, traffic=True, access=True, wildcards=["0.0.0.1"]))
-    out.append(dict(base, topo="firewall", masking=True, traffic=True, wildcards=["0.0.0.1", "0.0.0.255", "0.0.255.255"]))
+    out.append(dict(base, host_overrides={"client_1": {"applications_requires_scan": False},
+                                          "database_server": {"services_requires_scan": False},
+                                          "backup_server": {"file_system_requires_scan": False},
+                                          "client_2": {"include_nmne": False, "num_nics": 1}}))
+    out.append(dict(base, flatten=True, masking=True, scan=False, traffic=True, access=True, wildcards=["0.0.0.1"], router_ports=[1, 2],
+                    host_overrides={"web_server": {"services_requires_scan": True, "applications_requires_scan": True}}))
+    out.append(dict(base, topo="firewall", masking=True, traffic=True, wildcards=["0.0.0.1", "0.0.0.255", "0.0.255.255"],
+                    host_overrides={"client_1": {"applications_requires_scan": False}}))
     out.append(dict(base, topo="firewall", flatten=True, scan=False, nmne=False, access=True, dur=2))
     # NMNE included in the observation although the scenario does not capture it
-    out.append(dict(base, masking=True, nmne=True, capture=False, dur=2, bandwidth=0.01))
-    out.append(dict(base, flatten=True, dur=0, sticky=False, traffic=True))
+    out.append(dict(base, masking=True, nmne=True, capture=False, dur=2, bandwidth=0.01, dup_lists=True))
+    out.append(dict(base, flatten=True, dur=0, sticky=False, traffic=True, router_ports=[1, 2, 3, 4]))
     for i, v in enumerate(out):
         v["name"] = "gen%d" % i
     return out
